@@ -33,6 +33,7 @@ type vfGateState struct {
 	valid    map[string]bool   // a get grant for name is valid
 	call     map[string]string // call list of the valid answer
 	everGot  map[string]bool   // an access answer granting get was received at some point
+	multi    map[string]bool   // several access checks for the name were in flight at once
 	token    string            // current token ("" = none)
 	hadToken bool
 	seenReq  int
@@ -64,7 +65,7 @@ func vfGating(checkGet, checkCall bool, checkRevoke ...bool) {
 	w := vfNewWorld(Config{})
 	cl := w.connect("cidA", versionLatest)
 	r := vfNewRun(w, cl)
-	g := &vfGateState{valid: map[string]bool{}, call: map[string]string{}, everGot: map[string]bool{}}
+	g := &vfGateState{valid: map[string]bool{}, call: map[string]string{}, everGot: map[string]bool{}, multi: map[string]bool{}}
 	kinds := []vfReqKind{vfGateKinds[zzvf.Param("k0")]}
 	if k1 := zzvf.Param("k1"); k1 >= 0 {
 		kinds = append(kinds, vfGateKinds[k1])
@@ -188,6 +189,14 @@ func vfGating(checkGet, checkCall bool, checkRevoke ...bool) {
 			zzvf.Note("service: " + req.subject + " -> " + o.label)
 			if strings.HasPrefix(req.subject, "access.") {
 				name := req.subject[len("access."):]
+				for _, other := range w.mq.pending() {
+					if other != req && other.subject == req.subject {
+						// two access checks for the same resource in flight
+						// (e.g. one of them for a subscription disposed
+						// meanwhile): which answer governs is not judged
+						g.multi[name] = true
+					}
+				}
 				g.valid[name] = o.label == "grant"
 				if o.label == "grant" {
 					g.everGot[name] = true
@@ -241,7 +250,22 @@ func vfGating(checkGet, checkCall bool, checkRevoke ...bool) {
 		zzvf.Assert(vfQuiescent(w), "run-reaches-quiescence")
 		for _, name := range []string{"test.model", "test.parent", "test.collection"} {
 			if r.count[name] > 0 && r.directCount(name) > 0 {
+				if s := cl.c.subs[name]; s != nil && s.err != nil {
+					// the client holds an error placeholder, not the resource
+					continue
+				}
+				if g.multi[name] {
+					continue
+				}
 				zzvf.Reach("gating-still-subscribed")
+				if !g.valid[name] {
+					for _, f := range cl.frames {
+						if len(f) > 160 {
+							f = f[:160]
+						}
+						zzvf.Note("frame: " + f)
+					}
+				}
 				zzvf.Assert(g.valid[name], "subscribed-only-under-a-grant-newer-than-the-last-trigger")
 			}
 		}
